@@ -346,6 +346,10 @@ func (ls *LanceroSource) PrepareChannels() error {
 	cnum := ls.firstRowChanNum
 	thisColFirstCnum := cnum - ls.chanSepColumns
 	ls.groupKeysSorted = make([]GroupIndex, 0)
+	// Learn the subframe divisions anew for this run: the values of an earlier run of this source
+	// (possibly with another number of rows) say nothing about the devices that are active now.
+	ls.subframeDivisions = 0
+	ls.mixedRowCounts = false
 	for _, device := range ls.active {
 		// For Lancero sources, subframeDivisions = the number of rows.
 		// For sources with multiple LanceroDevice objects, its meaning is ambiguous, but we'll
